@@ -34,6 +34,9 @@ type c16Config struct {
 	want   []*big.Int
 	seed   uint64
 	len    [2]int64
+	// verbose: the parties run with their verbose flag set (diagnostics go
+	// to the process's standard output)
+	verbose bool
 }
 
 const c16StreamSrc = `package main
@@ -66,8 +69,8 @@ func c16Configs() []*c16Config {
 		c := mk(uint64(100 + i))
 		x, y := big.NewInt(int64(5+i)&7), big.NewInt(int64(9+3*i)&15)
 		flat, _ := refc.EvalFlat(c, []*big.Int{refc.Flatten(c.Inputs, []*big.Int{x, y})})
-		out = append(out, &c16Config{name: fmt.Sprintf("whole-circuit#%d/%s", i, []string{"CO", "COT", "COT-malicious"}[otk]), ot: otk, circ: c, x: x, y: y,
-			want: refc.SplitOut(c.Outputs, flat[0]), seed: uint64(7000 + i)})
+		out = append(out, &c16Config{name: fmt.Sprintf("whole-circuit#%d/%s%s", i, []string{"CO", "COT", "COT-malicious"}[otk], []string{"", "/verbose"}[i%2]), ot: otk, circ: c, x: x, y: y,
+			want: refc.SplitOut(c.Outputs, flat[0]), seed: uint64(7000 + i), verbose: i%2 == 1})
 	}
 	// a whole-circuit session with more than 64 result bits (90): result
 	// positions beyond one machine word
@@ -89,8 +92,8 @@ func c16Configs() []*c16Config {
 			want: []*big.Int{big.NewInt(int64(sum << 3)), big.NewInt(int64(sum)), big.NewInt(int64(sum >> 2))}})
 	}
 	for i, in := range [][2]int{{41, 22}, {3, 60}} {
-		cfg := &c16Config{name: fmt.Sprintf("streaming#%d/CO", i), stream: true, ot: 0, src: c16StreamSrc,
-			gIn: []string{fmt.Sprint(in[0])}, eIn: []string{fmt.Sprint(in[1])}, seed: uint64(7100 + i)}
+		cfg := &c16Config{name: fmt.Sprintf("streaming#%d/CO%s", i, []string{"", "/verbose"}[i%2]), stream: true, ot: 0, src: c16StreamSrc,
+			gIn: []string{fmt.Sprint(in[0])}, eIn: []string{fmt.Sprint(in[1])}, seed: uint64(7100 + i), verbose: i%2 == 1}
 		a, b := in[0], in[1]
 		if a > b {
 			cfg.want = []*big.Int{big.NewInt(int64(a - b)), big.NewInt(1)}
@@ -123,7 +126,7 @@ func c16Session(cfg *c16Config, dir int, f *tap.Fault, win time.Duration) c16Out
 			d.link.AddFault(dir, *f)
 		}
 	}
-	opts := yaoOpts{ot: cfg.ot, kind: 2, stallWin: win, prepare: prep}
+	opts := yaoOpts{ot: cfg.ot, kind: 2, stallWin: win, prepare: prep, verbose: cfg.verbose}
 	var link *tap.Link
 	var gp, ep partyResult
 	var stalled bool
